@@ -38,6 +38,8 @@ inductive Expr
   | builtin1 (fn : String) (a : Expr)            -- arithmetic with a fixed meaning: math.Ceil, d.Milliseconds(), …
   | builtin2 (fn : String) (a b : Expr)          -- math.Max, t.Sub(u), t.Add(d), t.Before(u), …
   | fresh                                       -- `&T{}`, a function literal: some non-nil reference
+  | len (arr : String)                          -- `len(x.items)` of a slice of structs
+  | index (arr : String) (i : Expr) (field : String)   -- `x.items[i].Field`
   | call0 (fn : String)                         -- external call without (relevant) arguments
   | call1 (fn : String) (a : Expr)
   | call2 (fn : String) (a b : Expr)
@@ -87,10 +89,11 @@ inductive Val (F : Type)
   deriving Repr, DecidableEq
 
 structure State (F : Type) where
-  vars  : List (String × Val F)                  -- newest binding first
+  vars  : List (String × Val F)                  -- in order of first binding
   calls : List (String × Nat)                    -- how often each external has been called
   trace : List String                            -- effects, newest first
   defers : List String
+  arrs : List (String × List (List (String × Val F))) := []   -- slices of structs: element → field → value (read only)
 
 /-- association lists with `if k = x` tests (string literals: decided by simp's `String.reduceEq`, never by unfolding) -/
 def lookup {α} (x : String) : List (String × α) → Option α
@@ -244,13 +247,13 @@ def builtin1 (fn : String) : Val F → Except String (Val F)
     if fn = "Milliseconds" then .ok (.int (d.tdiv 1000000))
     else if fn = "Nanoseconds" then .ok (.int d)
     else if fn = "IsZero" then .ok (.bool (decide (d = 0)))
-    else .error ("builtin " ++ fn ++ " on an integer")
+    else .error "builtin on an integer"
   | .flt f =>
     if fn = "math.Ceil" then .ok (.flt (FloatLike.ceil f))
     else if fn = "math.Floor" then .ok (.flt (FloatLike.floor f))
     else if fn = "math.Round" then .ok (.flt (FloatLike.round f))
-    else .error ("builtin " ++ fn ++ " on a float")
-  | _ => .error ("builtin " ++ fn)
+    else .error "builtin on a float"
+  | _ => .error "builtin"
 
 def builtin2 (fn : String) : Val F → Val F → Except String (Val F)
   | .int a, .int b =>
@@ -258,12 +261,12 @@ def builtin2 (fn : String) : Val F → Val F → Except String (Val F)
     else if fn = "Add" then .ok (.int (a + b))
     else if fn = "Before" then .ok (.bool (decide (a < b)))
     else if fn = "After" then .ok (.bool (decide (a > b)))
-    else .error ("builtin " ++ fn ++ " on integers")
+    else .error "builtin on integers"
   | .flt a, .flt b =>
     if fn = "math.Max" then .ok (.flt (FloatLike.max a b))
     else if fn = "math.Min" then .ok (.flt (FloatLike.neg (FloatLike.max (FloatLike.neg a) (FloatLike.neg b))))
-    else .error ("builtin " ++ fn ++ " on floats")
-  | _, _ => .error ("builtin " ++ fn)
+    else .error "builtin on floats"
+  | _, _ => .error "builtin"
 
 /-- a float constant expression meets an integer literal (`accRate < 1`, `accRate*10_000_000`): Go converts the
 untyped constant; the translator leaves the literal as written, so the conversion happens here -/
@@ -275,7 +278,7 @@ def coerce : Val F → Val F → Val F × Val F
 def convert (ty : String) : Val F → Except String (Val F)
   | .int i => if ty = "float64" then .ok (.flt (FloatLike.ofInt i)) else .ok (.int i)
   | .flt f => if ty = "float64" then .ok (.flt f) else .ok (.int (FloatLike.trunc f))
-  | _ => .error ("type: conversion to " ++ ty)
+  | _ => .error "type: conversion"
 
 def evalE (ext : Ext F) : Expr → State F → M F (Val F)
   | .int v, s => .ok (.int v, s)
@@ -284,7 +287,7 @@ def evalE (ext : Ext F) : Expr → State F → M F (Val F)
   | .nil, s => .ok (.nil, s)
   | .var x, s => match s.get x with
     | some v => .ok (v, s)
-    | none => .error ("unbound " ++ x)
+    | none => .error "unbound variable"
   | .bin .land a b, s =>                         -- short circuit
     bindE (evalE ext a s) fun va s1 => asBool va fun x =>
       if x then bindE (evalE ext b s1) fun vb s2 => asBool vb fun y => .ok (.bool y, s2)
@@ -305,24 +308,37 @@ def evalE (ext : Ext F) : Expr → State F → M F (Val F)
   | .conv ty a, s => bindE (evalE ext a s) fun va s1 => liftV (convert ty va) s1
   | .load c, s => match s.get c with
     | some v => .ok (v, s)
-    | none => .error ("unbound cell " ++ c)
+    | none => .error "unbound cell"
   | .swap c a, s => bindE (evalE ext a s) fun v s1 =>
     match s1.get c with
     | some old => .ok (old, s1.set c v)
-    | none => .error ("unbound cell " ++ c)
+    | none => .error "unbound cell"
   | .addFetch c a, s => bindE (evalE ext a s) fun v s1 => asInt v fun d =>
     match s1.get c with
     | some (.int old) => .ok (.int (old + d), s1.set c (.int (old + d)))
-    | _ => .error ("cell " ++ c ++ " is not an integer")
+    | _ => .error "cell is not an integer"
   | .builtin1 f a, s => bindE (evalE ext a s) fun va s1 => liftV (builtin1 f va) s1
   | .builtin2 f a b, s => bindE (evalE ext a s) fun va s1 => bindE (evalE ext b s1) fun vb s2 =>
       liftV (builtin2 f (coerce va vb).1 (coerce va vb).2) s2
   | .fresh, s => .ok (.nonNil, s)
+  | .len a, s => match lookup a s.arrs with
+    | some l => .ok (.int l.length, s)
+    | none => .error "unbound slice"
+  | .index a i f, s => bindE (evalE ext i s) fun vi s1 => asInt vi fun n =>
+    match lookup a s1.arrs with
+    | some l =>
+      if n < 0 then .error "panic: index out of range" else
+      (match l[n.toNat]? with
+       | some rec => (match lookup f rec with
+         | some v => .ok (v, s1)
+         | none => .error "no such field")
+       | none => .error "panic: index out of range")
+    | none => .error "unbound slice"
   | .call0 f, s => .ok (ext f (s.ncalls f) [], s.bump f)
   | .call1 f a, s => bindE (evalE ext a s) fun v s1 => .ok (ext f (s1.ncalls f) [v], s1.bump f)
   | .call2 f a b, s => bindE (evalE ext a s) fun va s1 => bindE (evalE ext b s1) fun vb s2 =>
       .ok (ext f (s2.ncalls f) [va, vb], s2.bump f)
-  | .unsupported w, _ => .error ("unsupported expression: " ++ w)
+  | .unsupported w, _ => .error w
 
 /-- `fuel` bounds the nesting of loop iterations -/
 def exec (ext : Ext F) : Nat → Stmt → State F → Outcome F
@@ -342,7 +358,7 @@ def exec (ext : Ext F) : Nat → Stmt → State F → Outcome F
   | _, .ret0, s => .returned [] s
   | _, .ret1 a, s => bindS (evalE ext a s) fun v s1 => .returned [v] s1
   | _, .ret2 a b, s => bindS (evalE ext a s) fun va s1 => bindS (evalE ext b s1) fun vb s2 => .returned [va, vb] s2
-  | _, .unsupported w, _ => .error ("unsupported statement: " ++ w)
+  | _, .unsupported w, _ => .error w
 
 /-- run a function body -/
 def runFn (ext : Ext F) (fuel : Nat) (body : Stmt) (s : State F) : Except String (List (Val F) × State F) :=
@@ -394,7 +410,7 @@ omit [FloatLike F] in
 @[minigo] theorem traceOf_ite (p : Prop) [Decidable p] (a b : Except String (List (Val F) × State F)) :
     traceOf (if p then a else b) = if p then traceOf a else traceOf b := by split <;> rfl
 
-def State.ofVars (l : List (String × Val F)) : State F := ⟨l, [], [], []⟩
+def State.ofVars (l : List (String × Val F)) : State F := ⟨l, [], [], [], []⟩
 
 
 /-! #### evaluation on a *literal* state
@@ -404,7 +420,8 @@ def State.ofVars (l : List (String × Val F)) : State F := ⟨l, [], [], []⟩
 
 section literal
 variable (ext : Ext F) (vs : List (String × Val F)) (cs : List (String × Nat)) (tr df : List String)
-local notation "σ" => (State.mk vs cs tr df : State F)
+  (ar : List (String × List (List (String × Val F))))
+local notation "σ" => (State.mk vs cs tr df ar : State F)
 
 @[minigo] theorem evalE_int (v : Int) : evalE ext (.int v) σ = .ok (.int v, σ) := by simp [evalE]
 @[minigo] theorem evalE_flit (m : Nat) (e : Int) : evalE ext (.flit m e) σ = .ok (.flt (FloatLike.ofLit m e), σ) := by simp [evalE]
@@ -412,9 +429,9 @@ local notation "σ" => (State.mk vs cs tr df : State F)
 @[minigo] theorem evalE_nil : evalE ext .nil σ = .ok (.nil, σ) := by simp [evalE]
 @[minigo] theorem evalE_fresh : evalE ext .fresh σ = .ok (.nonNil, σ) := by simp [evalE]
 @[minigo] theorem evalE_var (x : String) : evalE ext (.var x) σ =
-    (match (σ).get x with | some v => .ok (v, σ) | none => .error ("unbound " ++ x)) := by simp [evalE]
+    (match (σ).get x with | some v => .ok (v, σ) | none => .error "unbound variable") := by simp [evalE]
 @[minigo] theorem evalE_load (c : String) : evalE ext (.load c) σ =
-    (match (σ).get c with | some v => .ok (v, σ) | none => .error ("unbound cell " ++ c)) := by simp [evalE]
+    (match (σ).get c with | some v => .ok (v, σ) | none => .error "unbound cell") := by simp [evalE]
 @[minigo] theorem evalE_land (a b : Expr) : evalE ext (.bin .land a b) σ =
     bindE (evalE ext a σ) fun va s1 => asBool va fun x =>
       if x then bindE (evalE ext b s1) fun vb s2 => asBool vb fun y => .ok (.bool y, s2)
@@ -478,12 +495,25 @@ theorem evalE_bin_gen (op : BinOp) (h1 : op ≠ .land) (h2 : op ≠ .lor) (a b :
 @[minigo] theorem evalE_swap (c : String) (a : Expr) : evalE ext (.swap c a) σ = bindE (evalE ext a σ) fun v s1 =>
     match s1.get c with
     | some old => .ok (old, s1.set c v)
-    | none => .error ("unbound cell " ++ c) := by simp [evalE]
+    | none => .error "unbound cell" := by simp [evalE]
 @[minigo] theorem evalE_addFetch (c : String) (a : Expr) : evalE ext (.addFetch c a) σ =
     bindE (evalE ext a σ) fun v s1 => asInt v fun d =>
     match s1.get c with
     | some (.int old) => .ok (.int (old + d), s1.set c (.int (old + d)))
-    | _ => .error ("cell " ++ c ++ " is not an integer") := by simp [evalE]
+    | _ => .error "cell is not an integer" := by simp [evalE]
+@[minigo] theorem evalE_len (a : String) : evalE ext (.len a) σ =
+    (match lookup a ar with | some l => .ok (.int l.length, σ) | none => .error "unbound slice") := by simp [evalE]
+@[minigo] theorem evalE_index (a : String) (i : Expr) (f : String) : evalE ext (.index a i f) σ =
+    bindE (evalE ext i σ) fun vi s1 => asInt vi fun n =>
+    match lookup a s1.arrs with
+    | some l =>
+      if n < 0 then .error "panic: index out of range" else
+      (match l[n.toNat]? with
+       | some rec => (match lookup f rec with
+         | some v => .ok (v, s1)
+         | none => .error "no such field")
+       | none => .error "panic: index out of range")
+    | none => .error "unbound slice" := by simp [evalE]
 @[minigo] theorem evalE_call0 (f : String) : evalE ext (.call0 f) σ = .ok (ext f ((σ).ncalls f) [], (σ).bump f) := by
   simp [evalE]
 @[minigo] theorem evalE_call1 (f : String) (a : Expr) : evalE ext (.call1 f a) σ =
@@ -491,7 +521,7 @@ theorem evalE_bin_gen (op : BinOp) (h1 : op ≠ .land) (h2 : op ≠ .lor) (a b :
 @[minigo] theorem evalE_call2 (f : String) (a b : Expr) : evalE ext (.call2 f a b) σ =
     bindE (evalE ext a σ) fun va s1 => bindE (evalE ext b s1) fun vb s2 =>
       .ok (ext f (s2.ncalls f) [va, vb], s2.bump f) := by simp [evalE]
-@[minigo] theorem evalE_unsupported (w : String) : evalE ext (.unsupported w) σ = .error ("unsupported expression: " ++ w) := by
+@[minigo] theorem evalE_unsupported (w : String) : evalE ext (.unsupported w) σ = .error w := by
   simp [evalE]
 
 @[minigo] theorem exec_skip (fuel : Nat) : exec ext fuel .skip σ = .normal σ := by simp [exec]
@@ -503,9 +533,9 @@ theorem evalE_bin_gen (op : BinOp) (h1 : op ≠ .land) (h2 : op ≠ .lor) (a b :
     bindS (evalE ext e σ) fun v s1 => .normal (s1.set c v) := by simp [exec]
 @[minigo] theorem exec_eval (fuel : Nat) (e : Expr) : exec ext fuel (.eval e) σ =
     bindS (evalE ext e σ) fun _ s1 => .normal s1 := by simp [exec]
-@[minigo] theorem exec_effect (fuel : Nat) (w : String) : exec ext fuel (.effect w) σ = .normal (State.mk vs cs (w :: tr) df) := by
+@[minigo] theorem exec_effect (fuel : Nat) (w : String) : exec ext fuel (.effect w) σ = .normal (State.mk vs cs (w :: tr) df ar) := by
   simp [exec]
-@[minigo] theorem exec_deferEffect (fuel : Nat) (w : String) : exec ext fuel (.deferEffect w) σ = .normal (State.mk vs cs tr (w :: df)) := by
+@[minigo] theorem exec_deferEffect (fuel : Nat) (w : String) : exec ext fuel (.deferEffect w) σ = .normal (State.mk vs cs tr (w :: df) ar) := by
   simp [exec]
 @[minigo] theorem exec_ite (fuel : Nat) (c : Expr) (t e : Stmt) : exec ext fuel (.ite c t e) σ =
     bindS (evalE ext c σ) fun v s1 => asBoolS v fun b => if b then exec ext fuel t s1 else exec ext fuel e s1 := by
@@ -521,16 +551,16 @@ theorem evalE_bin_gen (op : BinOp) (h1 : op ≠ .land) (h2 : op ≠ .lor) (a b :
 @[minigo] theorem exec_ret2 (fuel : Nat) (a b : Expr) : exec ext fuel (.ret2 a b) σ =
     bindS (evalE ext a σ) fun va s1 => bindS (evalE ext b s1) fun vb s2 => .returned [va, vb] s2 := by simp [exec]
 @[minigo] theorem exec_unsupported (fuel : Nat) (w : String) : exec ext fuel (.unsupported w) σ =
-    .error ("unsupported statement: " ++ w) := by simp [exec]
+    .error w := by simp [exec]
 
 omit [FloatLike F] in
 @[minigo] theorem get_mk (x : String) : (σ).get x = lookup x vs := rfl
 omit [FloatLike F] in
-@[minigo] theorem set_mk (x : String) (v : Val F) : (σ).set x v = State.mk (upd x v vs) cs tr df := rfl
+@[minigo] theorem set_mk (x : String) (v : Val F) : (σ).set x v = State.mk (upd x v vs) cs tr df ar := rfl
 omit [FloatLike F] in
 @[minigo] theorem ncalls_mk (f : String) : (σ).ncalls f = (lookup f cs).getD 0 := rfl
 omit [FloatLike F] in
-@[minigo] theorem bump_mk (f : String) : (σ).bump f = State.mk vs (upd f ((lookup f cs).getD 0 + 1) cs) tr df := rfl
+@[minigo] theorem bump_mk (f : String) : (σ).bump f = State.mk vs (upd f ((lookup f cs).getD 0 + 1) cs) tr df ar := rfl
 omit [FloatLike F] in
 @[minigo] theorem asBoolS_ite (p : Prop) [Decidable p] (a b : Val F) (k : Bool → Outcome F) :
     asBoolS (if p then a else b) k = if p then asBoolS a k else asBoolS b k := by split <;> rfl
@@ -546,7 +576,7 @@ attribute [minigo] runFn State.ofVars binop coerce convert builtin1 builtin2 loo
 
 def atomicOpsE : Expr → List String
   | .bin _ a b => atomicOpsE a ++ atomicOpsE b
-  | .not a | .neg a | .conv _ a | .builtin1 _ a => atomicOpsE a
+  | .not a | .neg a | .conv _ a | .builtin1 _ a | .index _ a _ => atomicOpsE a
   | .builtin2 _ a b => atomicOpsE a ++ atomicOpsE b
   | .load c => ["load " ++ c]
   | .swap c a => atomicOpsE a ++ ["swap " ++ c]
